@@ -1,16 +1,21 @@
 (** The hand model of the indexer vs its source, PARTIAL (group "lines"; Scope.v / Indexer.v of group scope are only
     imported): coq/gen/GenIndexer.v is regenerated on every run by tools/translate/t_indexer.py from the CURRENT text of
     crates/ide/src/index/scope.rs, index/context.rs and index.rs.  This obligation covers exactly the functions listed in its
-    statement: 16 clauses for scope.rs / context.rs (22 of their 26 fns; IndexCtx::new / finish are not rendered,
-    find_variable_in_current_scope / resolve_id_in_current_scope are rendered but have no counterpart in the model) and
-    20 of the 39 fns of index.rs (utils::identifier, SourceFile, StatementList, Statement, Assert, Class, Defset, Defvar,
-    Dump, Foreach, ForeachIterator, ForeachIteratorInit, If, Let, LetList, LetItem, MultiClass, TemplateArgList, RecordBody,
-    Body, BodyItem).  Not covered: Include, Def, Defm, TemplateArgDecl, ParentClassList, resolve_class_ref_as_*,
-    check_template_args, ArgValueList, ArgValue, FieldDef, FieldLet, Value, InnerValue, SimpleValue, Type, Integer,
-    index_name_value, index, and all of index/bang_operator.rs (see design/notes-translator-indexer.md).
-    The index.rs clauses are by open recursion: the indexing of child nodes is a parameter of each rendering,
-    instantiated here with the functions of the hand model; statement-level clauses compare the resulting STATES (the
-    Option a statement's `index` returns is ignored by every caller).  Statement only; proofs in TG.Proofs.GenIndexerEq. *)
+    statement:
+    - index/scope.rs: 16 of its 17 fns (find_variable_in_current_scope is rendered but has no counterpart in the model);
+    - index/context.rs: 6 of 9 (IndexCtx::new / finish are not rendered, resolve_id_in_current_scope has no counterpart);
+    - index.rs: 35 of 39: utils::identifier, index_name_value, resolve_class_ref_as_class / _multiclass, and the impls for
+      SourceFile, StatementList, Statement, Include, Assert, Class, Def, Defm, Defset, Defvar, Dump, Foreach,
+      ForeachIterator, ForeachIteratorInit, If, Let, LetList, LetItem, MultiClass, TemplateArgList, TemplateArgDecl,
+      RecordBody, ParentClassList, ArgValueList, ArgValue, Body, BodyItem, FieldDef, FieldLet, Type, Integer.
+    NOT covered: Value, InnerValue, SimpleValue, check_template_args, the salsa entry point `index`, and all of
+    index/bang_operator.rs (see design/notes-translator-indexer.md).
+    The index.rs clauses are by open recursion: the indexing of child nodes (and the calls of check_template_args /
+    resolve_class_ref_* / index_name_value) are parameters of each rendering, instantiated here with the functions of the
+    hand model.  Statement-level clauses compare the resulting STATES (the Option a statement's `index` returns is
+    ignored by every caller); TemplateArgDecl is compared on the runs of the source that do not panic; Def / Defm are
+    equal after forgetting the outline bookkeeping (is_global, in_defset_of_this_file, defset.add_def) and the names of
+    anonymous records, which Scope.v does not model.  Statement only; proofs in TG.Proofs.GenIndexerEq. *)
 From Coq Require Import List NArith Bool.
 From TG.Model Require Import CoreAst Scope BangOps Indexer IndexerSrc.
 From TG.Gen Require Import GenIndexer.
@@ -69,10 +74,30 @@ Theorem Indexer_model_is_source_partial :
                          snd (index_stmt files (S n) (SForeach i init b) s)) /\
      (forall c th el s, snd (src_ix_If (m_StatementList files n) (index_value n) c th el s) =
                         snd (index_stmt files (S n) (SIf c th el) s)) /\
-     (forall x s, snd (src_ix_Statement (m_StatementList files n) (index_value n) index_ty (m_TemplateArgList n) (m_RecordBody n)
-                         (index_parents n) (m_LetList n) (m_ForeachIterator n) (index_stmt files (S n))
-                         (index_stmt files (S n)) (index_stmt files (S n)) x s) = snd (index_stmt files (S n) x s)) /\
-     (forall x s, snd (src_ix_BodyItem (index_value n) (index_item n) (index_item n) x s) = snd (index_item n x s))).
+     (forall x s, snd (src_ix_Statement files (m_StatementList files n) (index_value n) index_ty (m_TemplateArgList n) (m_RecordBody n)
+                         (index_parents n) (m_LetList n) (m_ForeachIterator n) index_name_value x s) =
+                  snd (index_stmt files (S n) x s)) /\
+     (forall nm r ps b s, snd (src_ix_Def (m_RecordBody n) index_name_value nm r ps b s) =
+                          snd (index_stmt files (S n) (SDef nm r ps b) s)) /\
+     (forall nm r ps s, snd (src_ix_Defm (index_parents n) index_name_value nm r ps s) =
+                        snd (index_stmt files (S n) (SDefm nm r ps) s)) /\
+     (forall r t s, snd (src_ix_Include files (m_StatementList files n) r t s) = snd (index_stmt files (S n) (SInclude r t) s)) /\
+     (forall a s, src_ix_ArgValue (index_value n) a s = index_arg (S n) a s) /\
+     (forall x s, snd (src_ix_BodyItem (index_value n) index_ty x s) = snd (index_item n x s)) /\
+     (forall k s, src_ix_Integer k s = ret k s) /\
+     (forall t s, src_ix_Type index_ty src_ix_Integer t s = index_ty t s) /\
+     (forall v s, src_index_name_value v s = index_name_value v s) /\
+     (forall t i v s, snd (src_ix_FieldDef (index_value n) index_ty t i v s) = snd (index_item n (IField t i v) s)) /\
+     (forall i v s, snd (src_ix_FieldLet (index_value n) i v s) = snd (index_item n (ILet i v) s)) /\
+     (forall t i d s, s_bad (snd (src_ix_TemplateArgDecl (index_value n) index_ty t i d s)) = false ->
+        snd (src_ix_TemplateArgDecl (index_value n) index_ty t i d s) = snd (index_targ n (TArg t i d) s)) /\
+     (forall args s, src_ix_ArgValueList (index_arg n) args s = index_args n args s) /\
+     (forall i args r s, src_resolve_class_ref_as_class (index_args n) (m_check_template_args) i args r s =
+                         resolve_class_ref_as_class n (CRef i args r) s) /\
+     (forall i args r s, src_resolve_class_ref_as_multiclass (index_args n) (m_check_template_args) i args r s =
+                         resolve_class_ref_as_multiclass n (CRef i args r) s) /\
+     (forall ps s, snd (src_ix_ParentClassList (resolve_class_ref_as_class n) (resolve_class_ref_as_multiclass n) ps s) =
+                   snd (index_parents n ps s))).
 Proof. exact indexer_model_is_source_partial. Qed.
 
 Print Assumptions Indexer_model_is_source_partial.
